@@ -276,9 +276,11 @@ pub fn enumerate(game: &Game, depth: u32, full_limit: u64, c07: bool, c18: bool,
         }
     }
     // "a larger allowance never changes the sequence, it only extends it": allowances of any
-    // magnitude that the clock never reaches must report exactly the reference's sequence
+    // magnitude - from 30 s (a scripted run of 3 M clock queries covers 3 s) to u128::MAX, ordinary
+    // ones included - that the clock never reaches
+    // must report exactly the reference's sequence
     if c07 && only_k.is_none() {
-        const HUGE: &[u128] = &[(1u128 << 63) - 1, 1u128 << 63, (1u128 << 64) + 1234, 1u128 << 100, u128::MAX, 20_000_000];
+        const HUGE: &[u128] = &[(1u128 << 63) - 1, 1u128 << 63, (1u128 << 64) + 1234, 1u128 << 100, u128::MAX, 20_000_000, 30_000, 59_999, 60_000, 60_001, 600_000, 3_600_000, 86_400_000];
         let a = HUGE[(runno % HUGE.len() as u64) as usize];
         let big = sb::run_search_with_allowance(&b, &table, u64::MAX, Some(depth + 1), node_cap, a);
         acc.evals += 1;
@@ -345,7 +347,7 @@ pub fn replay_expiry(sc: &Value, prop: &str) -> Acc {
     let mut rng = Rng::new(1);
     if let Some(a) = sc["allowance_ms"].as_str().and_then(|s| s.parse::<u128>().ok()) {
         // the huge-allowance comparison is selected by run number (see `enumerate`)
-        const HUGE: &[u128] = &[(1u128 << 63) - 1, 1u128 << 63, (1u128 << 64) + 1234, 1u128 << 100, u128::MAX, 20_000_000];
+        const HUGE: &[u128] = &[(1u128 << 63) - 1, 1u128 << 63, (1u128 << 64) + 1234, 1u128 << 100, u128::MAX, 20_000_000, 30_000, 59_999, 60_000, 60_001, 600_000, 3_600_000, 86_400_000];
         let idx = HUGE.iter().position(|x| *x == a).unwrap_or(0) as u64;
         enumerate(&game, depth, 0, prop == "C07", prop == "C18", &mut acc, idx, &z, &mut rng, None);
         return acc;
@@ -840,15 +842,45 @@ pub fn gen_repetition_root(rng: &mut Rng, want: u32, z: &ZobristHasher) -> Optio
     None
 }
 
+/// a root where the mover - usually far AHEAD - is in perpetual check: its only legal move
+/// leads to a position that already occurred `want` times (endgames.rs, FORCED_REPETITIONS)
+pub fn forced_repetition_game(rng: &mut Rng, want: u32) -> Option<Game> {
+    let x = Pos::from_fen(*rng.pick(crate::endgames::FORCED_REPETITIONS)).ok()?;
+    let [a, b, a2, b2] = crate::endgames::forced_cycle(&x)?;
+    let start = x.apply(a);
+    let mut moves = vec![];
+    for _ in 0..(want - 1) {
+        moves.extend([b, a2, b2, a]);
+    }
+    moves.extend([b, a2, b2]);
+    let g = Game { start, moves, source: "c10-forced-repetition" };
+    // validate by the referee
+    let mut p = g.start.clone();
+    for m in &g.moves {
+        if !p.legal_moves().contains(m) {
+            return None;
+        }
+        p = p.apply(*m);
+    }
+    if p.canon() != x.canon() {
+        return None;
+    }
+    Some(g)
+}
+
 pub fn run_c10_search(seed: u64, runno: u64) -> Acc {
     let mut rng = Rng::new(crate::rng::mix(seed, "C10-search", runno));
     let mut acc = Acc::new();
     let z = ZobristHasher::create_zobrist_hasher();
     let want = *rng.pick(&[2u32, 2, 3, 3, 4]);
-    let game = match gen_repetition_root(&mut rng, want, &z) {
+    let forced = rng.chance(1, 6);
+    let game = match if forced { forced_repetition_game(&mut rng, want) } else { gen_repetition_root(&mut rng, want, &z) } {
         Some(g) => g,
         None => return acc,
     };
+    if forced {
+        acc.count("c10_roots_in_perpetual_check_with_one_legal_move");
+    }
     judge_c10_search(&game, want, &mut acc, runno, &z);
     acc
 }
